@@ -519,3 +519,115 @@ def meta(children, fullbox=True, handler="mdir", hdlr_first=True, with_hdlr=True
 
 def udta(children):
     return Box("udta", list(children))
+
+
+# ---------------------------------------------------------------- fragmented movies
+def build_fragmented(tracks, fragments, movie_ts=1000, trex_dur=0, extra_between=(), large_moof=False, trex_durs=None):
+    """tracks: [{"id", "kind", "ts"}]; fragments: [[traf, ...], ...] with
+         traf = {"track_id", "base": "moof" | "explicit" | "explicit_end", "tfhd_dur": None|int, "tfdt": None|int, "tfdt_v": 0|1,
+                 "durations": None|[..], "sizes": [..], "cts": None|[..], "with_offset": bool, "trun": bool}
+       returns (init bytes, media bytes, runs) where runs[(track_id)] = list of fragrun dicts with positions RELATIVE TO THE MEDIA SEGMENT START
+       (add len(init) for the single-stream case)."""
+    trs = []
+    for t in tracks:
+        tt = dict(t)
+        tt.update({"sizes": [], "chunks": [], "deltas": [], "cts": None, "sync": None, "co64": False, "duration": 0})
+        trs.append(tt)
+    if trex_durs:
+        mv = mvex([trex(t["id"], 1, trex_durs[t["id"]]) for t in tracks])
+    else:
+        mv = mvex([trex(tracks[-1]["id"], 1, trex_dur)])
+    r, _, nodes = build_movie(trs, "moov_first", movie_ts=movie_ts, mvex=mv)
+    # init segment = ftyp + moov (drop the empty mdat)
+    init = bytes(render(nodes[:-1]).data)
+    media = bytearray()
+    runs = {}
+    seq = 1
+    for fi, frag in enumerate(fragments):
+        for x in extra_between:
+            media += bytes(render([x]).data)
+        moof_off = len(media)
+
+        def make(offsets, bases, frag=frag, seq=seq):
+            trafs = []
+            for ti, tf in enumerate(frag):
+                kids = [tfhd(tf["track_id"], bases[ti] if tf.get("base", "moof") != "moof" else None, None, tf.get("tfhd_dur"))]
+                if tf.get("tfdt") is not None:
+                    kids.append(tfdt(tf["tfdt"], tf.get("tfdt_v", 0)))
+                if tf.get("trun", True):
+                    kids.append(trun(len(tf["sizes"]), offsets[ti] if tf.get("with_offset", True) else None, None, tf.get("durations"), tf["sizes"], None, tf.get("cts")))
+                trafs.append(Box("traf", kids))
+            return Box("moof", [mfhd(seq)] + trafs, large=large_moof)
+        moof0 = make([0] * len(frag), [0] * len(frag))
+        moof_len = len(render([moof0]).data)
+        payload_start = moof_off + moof_len + 8
+        # data of the runs, in traf order
+        cum = 0
+        starts = []
+        for tf in frag:
+            starts.append(cum)
+            cum += sum(tf["sizes"]) if tf.get("trun", True) else 0
+        payload_end = payload_start + cum
+        offsets, bases = [], []
+        for tf, st in zip(frag, starts):
+            mode = tf.get("base", "moof")
+            if mode == "moof":
+                bases.append(None)
+                offsets.append(payload_start + st - moof_off)
+            elif mode == "explicit":
+                bases.append(("ABS", payload_start))
+                offsets.append(st)
+            else:
+                bases.append(("ABS", payload_end))
+                offsets.append(st - cum)          # negative
+        yield_bases = bases
+        media_piece = (make, offsets, bases, frag, moof_off, payload_start, starts)
+        # the explicit base is an absolute stream position: the caller tells us the stream offset of the media segment later,
+        # so we render with a placeholder and patch: keep the structure
+        runs.setdefault("_pieces", []).append(media_piece)
+        # placeholder rendering to advance the cursor
+        media += b"\0" * moof_len
+        pl = bytearray()
+        for tf in frag:
+            if tf.get("trun", True):
+                k0 = tf.get("k0", 1)
+                for j, n in enumerate(tf["sizes"]):
+                    pl += sample_bytes(tf["track_id"] + 7 * fi, k0 + j, n)
+        media += struct.pack(">I4s", 8 + len(pl), b"mdat") + pl
+        seq += 1
+    pieces = runs.pop("_pieces", [])
+
+    def finalize(stream_off):
+        """render the media segment for a stream in which it starts at absolute position stream_off; returns (bytes, fragruns per track)"""
+        out = bytearray(media)
+        fr = {}
+        for (make, offsets, bases, frag, moof_off, payload_start, starts) in pieces:
+            abs_bases = [None if b is None else b[1] + stream_off for b in bases]
+            moof = make(offsets, abs_bases)
+            mb = bytes(render([moof]).data)
+            out[moof_off:moof_off + len(mb)] = mb
+            for tf, off, ab in zip(frag, offsets, abs_bases):
+                has_trun = tf.get("trun", True)
+                flags = 0
+                if has_trun:
+                    flags = (TRUN_OFFSET if tf.get("with_offset", True) else 0) | (TRUN_DUR if tf.get("durations") is not None else 0) | TRUN_SIZE | (TRUN_CTS if tf.get("cts") is not None else 0)
+                fr.setdefault(tf["track_id"], []).append({
+                    "moof_offset": moof_off + stream_off, "base_data_offset": ab, "default_duration": tf.get("tfhd_dur"), "tfdt": tf.get("tfdt"),
+                    "has_trun": has_trun, "flags": flags, "sample_count": len(tf["sizes"]) if has_trun else 0,
+                    "data_offset": off if (has_trun and tf.get("with_offset", True)) else None,
+                    "durations": (tf.get("durations") or []) if has_trun else [], "sizes": tf["sizes"] if has_trun else [], "cts": (tf.get("cts") or []) if has_trun else []})
+        return bytes(out), fr
+    return init, finalize
+
+
+def fraglookup_line(runs, dflt, ids, mode, data_hex="-"):
+    def o(x):
+        return "-" if x is None else "%x" % x
+    toks = ["fraglookup", mode, "%x" % dflt, data_hex, "ids=" + (",".join("%x" % i for i in ids) or "-")]
+    for r in runs:
+        toks.append("run=%x:%s:%s:%s:%d:%x:%x:%s:%s:%s:%s" % (
+            r["moof_offset"], o(r["base_data_offset"]), o(r["default_duration"]), o(r["tfdt"]), 1 if r["has_trun"] else 0, r["flags"], r["sample_count"],
+            "-" if r["data_offset"] is None else str(r["data_offset"]),
+            ",".join("%x" % x for x in r["durations"]) or "-", ",".join("%x" % x for x in r["sizes"]) or "-",
+            ",".join("%x" % (x & 0xffffffff) for x in r["cts"]) or "-"))
+    return " ".join(toks)
